@@ -349,7 +349,12 @@ struct Wide {
         if constexpr (is_uintwide_v<Rep>) {
             // cause region: the vendored Karatsuba multiplication (>= 129 limbs) assumes a power-of-two limb count
             constexpr std::size_t limbs = Rep::number_of_limbs;
-            if ((op == MUL || op == A_MUL) && limbs >= 129 && (limbs & (limbs - 1)) != 0) cause = "karatsuba-non-power-of-two-limb-count/";
+            // (the recursion halves the limb count down to blocks of at most 48 limbs and loses a limb whenever a count on the way is odd:
+            //  129, 196 -> 98 -> 49, 250 -> 125 fail; 132 -> 66 -> 33, 136 -> 68 -> 34, 256 are sound)
+            bool odd_on_the_way = false;
+            if (limbs >= 129)
+                for (std::size_t nl = limbs; nl > 48; nl /= 2) odd_on_the_way = odd_on_the_way || (nl % 2 != 0);
+            if ((op == MUL || op == A_MUL) && odd_on_the_way) cause = "karatsuba-non-power-of-two-limb-count/";
         }
         o.region = cause;
         if (got != expect || (!fail_detail.empty() && fail_detail != "skip"))
